@@ -31,9 +31,12 @@ def record_inputs(src, p, has_name):
     f = {"version": src.bv(p + ".version", 8), "user_id": src.bytes(p + ".user_id", 32), "pk": src.bv(p + ".pk", 64), "seq": src.bv(p + ".seq", 64),
          "name": src.bv(p + ".name", 64) if has_name else None, "elen": src.bv(p + ".elen", 64),
          "ends": [{"uuid": src.bv(f"{p}.end{i}.uuid", 64), "port": src.bv(f"{p}.end{i}.port", 16), "nat": src.bv(f"{p}.end{i}.nat", 3),
-                   "coord": src.bv(f"{p}.end{i}.coord", 64), "dev_some": src.bool(f"{p}.end{i}.dev_some"), "dev": src.bv(f"{p}.end{i}.dev", 64),
+                   "coords": [src.short_string(f"{p}.end{i}.coord{k}", cap=2) for k in range(2)], "clen": src.bv(f"{p}.end{i}.clen", 64), "dev_some": src.bool(f"{p}.end{i}.dev_some"), "dev": src.bv(f"{p}.end{i}.dev", 64),
                    "upd": src.bv(f"{p}.end{i}.last_updated", 64)} for i in range(ECAP)], "ttl": src.bv(p + ".ttl", 32), "ts": src.bv(p + ".ts", 64), "sig": src.bv(p + ".sig", 64)}
     return f
+
+
+from summaries_coll import IPADDR  # noqa: E402
 
 
 def endpoint_value(eng, e):
@@ -41,9 +44,11 @@ def endpoint_value(eng, e):
     info = eng.enum_info("peer_record::NatType")
     return mk_struct(eng, "PeerEndpoint", {
         "endpoint_id": VStruct([VStruct([e["uuid"]], "Uuid")], "EndpointId"),
-        "external_address": VStruct([VStruct([e["port"]], "SocketAddr"), VEnum(OPTION, bv(0, 8), {0: ()})], "NetworkAddress"),
+        "external_address": VStruct([VStruct([VEnum(IPADDR, bv(0, 8), {0: (VArr([bv(192, 8), bv(168, 8), bv(1, 8), bv(1, 8)]),)}), e["port"]], "SocketAddr"),
+                                     VEnum(OPTION, bv(0, 8), {0: ()})], "NetworkAddress"),
         "nat_type": VEnum(info, z3.ZeroExt(5, e["nat"]), {i: () for i in range(len(info.variants))}),
-        "coordinator_nodes": VSeq([VStr(e["coord"])], bv(1, 64)),
+        # the coordinator names are byte-level short strings (<= 2 printable bytes each): a hash that streams them sees their CONCATENATION
+        "coordinator_nodes": VSeq(list(e["coords"]), e["clen"]),
         "device_info": VEnum(OPTION, z3.If(e["dev_some"], bv(1, 8), bv(0, 8)), {0: (), 1: (VStr(e["dev"]),)}),
         "last_updated": e["upd"]})
 
@@ -69,7 +74,8 @@ def same_fields(a, b, skip=()):
         eq.append(a["name"] == b["name"])
     for i in range(ECAP):
         ea, eb = a["ends"][i], b["ends"][i]
-        same = z3.And(ea["uuid"] == eb["uuid"], ea["port"] == eb["port"], ea["nat"] == eb["nat"], ea["coord"] == eb["coord"], ea["dev_some"] == eb["dev_some"],
+        same = z3.And(ea["uuid"] == eb["uuid"], ea["port"] == eb["port"], ea["nat"] == eb["nat"], ea["clen"] == eb["clen"],
+                      *[z3.Implies(z3.ULT(bv(k, 64), ea["clen"]), ea["coords"][k].id == eb["coords"][k].id) for k in range(2)], ea["dev_some"] == eb["dev_some"],
                       z3.Implies(ea["dev_some"], ea["dev"] == eb["dev"]), ea["upd"] == eb["upd"])
         eq.append(z3.Implies(z3.ULT(bv(i, 64), a["elen"]), same))
     return z3.And(*eq)
@@ -111,6 +117,7 @@ def build_pair(ck, names, src, obs=None):
     for f in (f1, f2):
         for e in f["ends"]:
             hyps.append(z3.ULE(e["nat"], bv(5, 3)))
+            hyps.append(z3.ULE(e["clen"], bv(2, 64)))
     for f in (f1, f2):
         if f["name"] is not None:
             strlen = z3.Function("strlen", z3.BitVecSort(64), z3.BitVecSort(64))
